@@ -8,12 +8,20 @@ pub mod trap;
 pub mod c01;
 pub mod c02;
 pub mod c03;
+pub mod c04;
+pub mod c05;
+pub mod c06;
+pub mod rolling;
+pub mod c07;
+pub mod frames;
+pub mod hooks;
 pub mod c09;
 pub mod c10;
 pub mod c11;
 pub mod c12;
 pub mod pattern_model;
 pub mod c13;
+pub mod c17;
 pub mod childproc;
 
 use report::Report;
@@ -38,11 +46,16 @@ pub fn dispatch(prop: &str, tier: &str, seed: u64, only: Option<(String, u64)>) 
         "C01" => c01::run(&mut rep),
         "C02" => c02::run(&mut rep),
         "C03" => c03::run(&mut rep),
+        "C04" => c04::run(&mut rep),
+        "C05" => c05::run(&mut rep),
+        "C06" => c06::run(&mut rep),
+        "C07" => c07::run(&mut rep),
         "C09" => c09::run(&mut rep),
         "C10" => c10::run(&mut rep),
         "C11" => c11::run(&mut rep),
         "C12" => c12::run(&mut rep),
         "C13" => c13::run(&mut rep),
+        "C17" => c17::run(&mut rep),
         _ => {
             eprintln!("unknown property {}", prop);
             return 2;
